@@ -44,10 +44,12 @@ def handleC05 (args : List Sexp) : String :=
   match args with
   | [.atom "rwcert", rtl, n, n', dj, un] =>
     -- `(c05 rwcert <rtl> <un-rewritten n-ary tree> <rewritten n-ary tree> (disj …) (uni …))` →
-    -- `(ok <certified 0|1> <ll-agrees 0|1> (made N) (errs E…) (mid <rnode>))`: Lean's model of the gated
-    -- rewrites (`reduceAll`, the proved variant) applied to the un-rewritten tree gives `mid`; `cert`
-    -- (Model/AutoAtomic.lean) then validates `toPat mid` against the engine's rewritten tree.
-    -- Props.C05.rewrites_certified: certified ⇒ same `find` from every start.
+    -- `(ok <corresponds 0|1> <proved-variant-agrees 0|1> (made N) (errs E…) (mid <rnode>) (dg 0|1))`: Lean's
+    -- model of the gated rewrites (`rewriteTop`, all cases) applied to the un-rewritten tree gives `mid`;
+    -- `cert` (Model/AutoAtomic.lean) validates `toPat mid` against the engine's rewritten tree: equality up
+    -- to certified auto-atomic / ending differences.  When the proved variant (`ll = false`) computes the
+    -- same `mid`, Props.C05.rewrites_certified applies: same `find` from every start.  Both readings of an
+    -- alternation directly under an Atomic node (`dg`) are tried.
     match rtl.bool?, rnode? n, rnode? n', tagged? "disj" dj, tagged? "uni" un with
     | some rtl, some n, some n', some dj, some un =>
       match dj.mapM predPair?, un.mapM pred? with
@@ -58,11 +60,13 @@ def handleC05 (args : List Sexp) : String :=
         let answer (dg : Bool) : Bool × String :=
           let mid := rewriteTop false dg fuel rtl n
           let midLL := rewriteTop true dg fuel rtl n
-          let p := toPat rtl mid
-          let r := (cert o rtl p p').close
-          let ok := certTopDir o rtl p p'
+          let pLL := toPat rtl midLL
+          let r := (cert o rtl pLL p').close
+          -- correspondence: the full model against the engine's tree
+          let okLL := certTopDir o rtl pLL p'
+          -- the proved variant agrees with the full model: `rewrites_certified` applies
           let same := RNode.same mid midLL
-          (ok && same, toString (Sexp.list [.atom "ok", ofBool ok, ofBool same,
+          (okLL, toString (Sexp.list [.atom "ok", ofBool okLL, ofBool same,
             mk "made" [ofNat r.made], mk "errs" (r.errs.map errSexp), mk "mid" [rnodeSexp midLL], mk "dg" [ofBool dg]]))
         let a1 := answer true
         if a1.1 then a1.2 else
